@@ -131,7 +131,7 @@ def _one(args):
 def configs(ck):
     if ck.quick:
         return [(4, 2, 1), (3, 3, 1), (2, 2, 2), (2, 4, 1)]     # (N, G, W); S = 1
-    return [(5, 2, 1), (4, 3, 1), (3, 4, 1), (3, 3, 2), (4, 2, 2)]
+    return [(5, 2, 1), (4, 3, 1), (3, 4, 1), (3, 2, 2)]
 
 
 def run(ck):
@@ -155,7 +155,7 @@ def replay_cases(ck, cases):
     allc = [(0, True), (1, False), (0, False), (1, True)]
     jobs = []
     for i, c in enumerate(cases):
-        combos = [allc[i % 4]] if ck.quick else [allc[i % 4], allc[(i + 1) % 4]]
+        combos = [allc[i % 4]] if (ck.quick or i % 3) else [allc[i % 4], allc[(i + 1) % 4]]
         jobs.append((c, ck.seed, combos))
     res = pmap(_one, jobs)
     ns = nz = 0
